@@ -224,6 +224,14 @@ def _exit_obligations(ex, ctx, fi, contract, e, deferred, ghost_env, rty, n_exit
                 for pc2, g2 in _cond_split(ex, e, a):
                     ctx.obls.append(Obligation(f"post/{label}" + (f".{j}" if len(d.node.args) > 1 else ""), "post", pc2, g2, where,
                                                {"text": ast.unparse(a)}))
+        if d.kind == "shares" and not raised:
+            dst = ex.ev(d.node.args[0], e)
+            srcv = ex.ev(d.node.args[1], e)
+            hd, hs = ex.resolve(e, dst), ex.resolve(e, srcv)
+            for fa in d.node.args[2:]:
+                fname = ast.literal_eval(fa)
+                ctx.obls.append(Obligation(f"post/shares/{fname}", "post", e.hyps(), _same_field(ex, e, hd, hs, fname), where,
+                                           {"text": f"result.{fname} is self.{fname}"}))
         if d.kind == "raises":
             exc = d.node.args[0].id
             when = None
@@ -275,6 +283,33 @@ def _exit_obligations(ex, ctx, fi, contract, e, deferred, ghost_env, rty, n_exit
             goal = _frame_goal(ex, e, h0, h1, [])
         if goal is not None:
             ctx.obls.append(Obligation(f"frame/{r}", "frame", e.hyps(), z3.simplify(goal), where))
+
+
+def _same_field(ex, e, ha, hb, f):
+    """Two objects hold the very same value / object in field f."""
+    a = ha.fields.get(f) if f in ha.fields else None
+    b = hb.fields.get(f) if f in hb.fields else None
+    if a is None and b is None:
+        return z3.BoolVal(ha.lazy is not None and hb.lazy is not None and ha.lazy[0] == hb.lazy[0]
+                          and all(x.eq(y) for x, y in zip(ha.lazy[1], hb.lazy[1])))
+    if a is None:
+        a = ex.field_value(e, ha, f)
+    if b is None:
+        b = ex.field_value(e, hb, f)
+    if a is b:
+        return z3.BoolVal(True)
+    if isinstance(a, VRef) and isinstance(b, VRef):
+        return z3.BoolVal(a.root == b.root and a.path == b.path)
+    if isinstance(a, (VRef, H)) or isinstance(b, (VRef, H)):
+        if isinstance(a, HObj) and isinstance(b, HObj) and not a.fields and not b.fields and a.lazy is not None and b.lazy is not None:
+            return z3.BoolVal(a.lazy[0] == b.lazy[0])
+        return z3.BoolVal(False)
+    if isinstance(a, VLazy) and isinstance(b, VLazy):
+        return z3.BoolVal(a.name == b.name)
+    try:
+        return ex.eq(e, a, b)
+    except Unsupported:
+        return z3.BoolVal(False)
 
 
 def _cond_split(ex, e, node):
